@@ -11,7 +11,10 @@ from ebpfcat.ebpfcat import ParallelEtherCat, ProcessSyncGroup  # noqa: E402
 PROPERTY = "C29"
 LEVEL = "exploration"
 RULE = ("device classes with 1-6 DeviceVars of every format incl. x with "
-        "either sign (generated "
+        "either sign, formats whose native size exceeds the packed one "
+        "(l, L, HI, Bq, hq, bI) and classes derived from other device "
+        "classes that re-declare inherited variables with another format "
+        "(generated "
         "deterministically in an importable module so that a spawned child "
         "rebuilds them), 1-4 device instances per real ProcessSyncGroup; the "
         "parent writes distinct random values, a real multiprocessing "
@@ -60,7 +63,7 @@ def same(fmt, a, b):
 
 
 def rows_equal(devs, names, got, want):
-    return all(same(type(d).__dict__[n].fmt, g, w)
+    return all(same(type(d).c29_vars[n], g, w)
                for d, ns, grow, wrow in zip(devs, names, got, want)
                for n, g, w in zip(ns, grow, wrow))
 
@@ -71,6 +74,11 @@ def check_case(rng, res):
     desc = dict(devices=ks, formats=[procchild._c29_formats(k) for k in ks])
     nvars = sum(len(f) for f in desc["formats"])
     res.case([desc, rng.getrandbits(30)], nontrivial=nvars >= 2)
+    if any(k >= procchild.C29_PLAIN for k in ks):
+        res.count("configurations_with_a_derived_device_class")
+    if any(struct.calcsize(f) != struct.calcsize("=" + f)
+           for fs in desc["formats"] for f in fs if f != "x"):
+        res.count("configurations_with_a_natively_padded_format")
     devs = [classes[k]() for k in ks]
     if not exchange(rng, res, devs, desc):
         return
@@ -94,14 +102,13 @@ def exchange(rng, res, devs, desc):
         res.violation("unexplained:construct",
                       f"{type(ex).__name__}: {ex}", case=desc)
         return False
-    names = [sorted(k for k in type(d).__dict__ if k.startswith("v"))
-             for d in devs]
+    names = [sorted(type(d).c29_vars) for d in devs]
     # layout
     ranges = []
     try:
         for d, ns, fm in zip(devs, names, desc["formats"]):
             for n in ns:
-                fmt = type(d).__dict__[n].fmt
+                fmt = type(d).c29_vars[n]
                 pos = d.__dict__[n]
                 ranges.append((pos, pos + (8 if fmt == 'x' else
                                            struct.calcsize(fmt)), id(d), n))
@@ -123,7 +130,7 @@ def exchange(rng, res, devs, desc):
     p.start()
     try:
         for rnd in range(2):
-            vals = [[rand_value(rng, type(d).__dict__[n].fmt) for n in ns]
+            vals = [[rand_value(rng, type(d).c29_vars[n]) for n in ns]
                     for d, ns in zip(devs, names)]
             for d, ns, row in zip(devs, names, vals):
                 for n, v in zip(ns, row):
@@ -143,7 +150,7 @@ def exchange(rng, res, devs, desc):
                               f"parent wrote {vals}, child read {msg[1]}",
                               case=desc)
                 return False
-            back = [[rand_value(rng, type(d).__dict__[n].fmt) for n in ns]
+            back = [[rand_value(rng, type(d).c29_vars[n]) for n in ns]
                     for d, ns in zip(devs, names)]
             parent.send(("write", back))
             if not parent.poll(60):
